@@ -15,7 +15,14 @@ func TestDump(t *testing.T) {
 		t.Skip()
 	}
 	fmt.Println(d)
-	fmt.Println(dumpTree(buildTree(d)))
+	bt := buildDoc(d)
+	fmt.Println(dumpTree(bt.root))
+	for _, f := range bt.footnotes {
+		fmt.Println("footnote:\n" + dumpTree(f))
+	}
+	if len(bt.footnotes) > 0 {
+		fmt.Println("footnote area:\n" + dumpTree(footnoteArea(bt.root, bt.footnotes)))
+	}
 }
 
 // TestExplore: development census of the failure classes (clause x features) over a unit
@@ -60,16 +67,25 @@ func TestExplore(t *testing.T) {
 				record(dc.html, ti, func(f finding) []string { return dc.featuresOf(1, 2, 3) })
 			}
 		}()
-		root := buildTree(dc.html)
-		ti := analyse(root)
+		ti := analyseDoc(buildDoc(dc.html))
 		for _, t := range ti.tables {
 			ti.checkGrid(t.b)
 		}
 		dc.checkInput(ti)
 		record(dc.html, ti, func(f finding) []string { return append(dc.featuresOf(f.elems...), f.extra...) })
 	}
-	for u := lo; u < hi; u++ {
+	for u0 := lo; u0 < hi; u0++ {
+		u := u0 - c.nF
 		switch {
+		case u0 < c.nF:
+			s := u0 / nD
+			d1 := disp(u0 % nD)
+			for d2 := disp(0); d2 < nDisp; d2++ {
+				ds := []disp{d1, d2}
+				for _, x := range c.extrasFor(ds, true) {
+					runDoc(newDoc(c.shapes2[s], ds, x))
+				}
+			}
 		case u < c.nA:
 			s := u / (nD * nD)
 			d1 := disp(u / nD % nD)
